@@ -320,6 +320,8 @@ def vector_cases(draw):
             opts['dark'] = unambiguous(draw(colors.with_alpha(none_ok=False)))
         if draw(st.integers(0, 9)) < 5:
             opts['light'] = unambiguous(draw(colors.with_alpha(none_ok=True)))
+            if opts['light'] is not None and draw(st.integers(0, 5)) == 0:
+                opts['dark'] = None  # only the background is visible
             # identical dark and light colours are excluded: the picture is one plain square then, and
             # whether the modules are stroked on top of it is not observable
             if opts['light'] is not None and colors.rgba_of(opts['light']) == colors.rgba_of(opts.get('dark', 'black')):
